@@ -17,6 +17,7 @@ DESCRIPTIONS: Dict[str, str] = {
     "semantic_id": "_SemantivaComponent.semantic_id() -> class name (metadata dump used as transport channel name realises sequence values)",
     "sha256_json": "semantic_id._sha256_json -> constant digest (digest of a sweep sequence domain realises every element at class creation)",
     "env_pins": "orchestrator._collect_env_pins_util -> constant pins collected once outside the tracer (platform.platform() breaks CrossHair's condition parser)",
+    "repr": "repr() of a CrossHair symbolic value -> '<symbolic>' and BaseDataType.__repr__/__str__ -> class name (the CLI logs repr() of the result data and of every context value; output formatting is not the subject and would realise every value)",
     "datetime": "orchestrator.datetime / drivers.jsonl.datetime -> fixed instant (symbolic datetime ends paths UNKNOWN)",
 }
 
@@ -74,6 +75,27 @@ def apply(which=("time", "canon-json", "serialize_json_safe", "stable_equal", "s
             _pl.python_implementation()
             pins = tu.collect_env_pins()
             orch._collect_env_pins_util = lambda: dict(pins)
+        elif w == "repr":
+            from vt import xh_patches
+
+            xh_patches.apply()
+            from crosshair import core as _core
+            from crosshair.libimpl import builtinslib as bl
+            from crosshair.tracers import NoTracing
+            from semantiva.data_types import BaseDataType
+
+            _orig_repr = _core._PATCH_REGISTRATIONS.get(repr, repr)
+
+            def _repr(o):
+                with NoTracing():
+                    sym = isinstance(o, (bl.AnySymbolicStr, bl.SymbolicNumberAble)) or type(o).__module__.startswith("crosshair")
+                if sym:
+                    return "<symbolic>"
+                return _orig_repr(o)
+
+            _core._PATCH_REGISTRATIONS[repr] = _repr
+            BaseDataType.__repr__ = lambda self: type(self).__name__
+            BaseDataType.__str__ = lambda self: type(self).__name__
         elif w == "datetime":
             import datetime as _dt
 
